@@ -122,3 +122,11 @@ Theorem v0_unsorted_accepted_refuted :
   exists b m, wf_bytes b = true /\ unmarshal_v0 b = Ok m /\ marshal m <> b.
 Proof. exact unmarshal_canonical_v0_refuted. Qed.
 Print Assumptions v0_unsorted_accepted_refuted.
+
+Theorem v0_httpv1_constructor_refuted :
+  wf_proto (PUnknown id_http []) = false
+  /\ marshal [PUnknown id_http []] = []
+  /\ (exists c, unmarshal (marshal [PUnknown id_http []]) = Err c)
+  /\ unmarshal (marshal [PBitswap; PUnknown id_http []]) = Ok [PBitswap].
+Proof. exact httpv1_v0_refuted. Qed.
+Print Assumptions v0_httpv1_constructor_refuted.
